@@ -110,7 +110,7 @@ def run_benign(prop, var, repo):
         shutil.rmtree(d, ignore_errors=True)
 
 
-def run_seed(prop, seed_dir, repo, benign_patch=None):
+def run_seed(prop, seed_dir, repo, benign_patch=None, canary_patch=None):
     """A recorded seeded change (seeded/<id>/patch.diff) replayed as in-memory overlays of the
     files it touches: the property's rules must report a violation. Nothing is written to the repo.
     With benign_patch (canaries/benign_patches/<prop>/<name>.diff: a behaviour-preserving change that
@@ -121,6 +121,10 @@ def run_seed(prop, seed_dir, repo, benign_patch=None):
     if benign_patch:
         patch = benign_patch
         res = {"name": "patch:" + os.path.basename(benign_patch)[:-5], "kind": "benign"}
+    if canary_patch:
+        # canaries/canary_patches/<prop>/<name>.diff: a benign patch with one line broken — must be reported
+        patch = canary_patch
+        res = {"name": "patch:" + os.path.basename(canary_patch)[:-5], "kind": "canary"}
     files = [l[6:].strip() for l in open(patch) if l.startswith("+++ b/")]
     d = side_dir()
     try:
@@ -209,7 +213,8 @@ def main():
         ben_f = [ex.submit(run_benign, prop, b, repo) for b in bens]
         seed_f = [ex.submit(run_seed, prop, sd, repo) for sd in sorted(_glob.glob(os.path.join(VERIF, "seeded", prop + "-*")))]
         thorough["alt_configs"] = [f.result() for f in alt_f]
-        thorough["canaries"] = [f.result() for f in can_f]
+        cp_f = [ex.submit(run_seed, prop, "", repo, None, cp) for cp in sorted(_glob.glob(os.path.join(VERIF, "canaries", "canary_patches", prop, "*.diff")))]
+        thorough["canaries"] = [f.result() for f in can_f] + [f.result() for f in cp_f]
         bp_f = [ex.submit(run_seed, prop, "", repo, bp) for bp in sorted(_glob.glob(os.path.join(VERIF, "canaries", "benign_patches", prop, "*.diff")))]
         thorough["benign_variants"] = [f.result() for f in ben_f] + [f.result() for f in bp_f]
         thorough["seeded_changes"] = [f.result() for f in seed_f]
